@@ -25,4 +25,5 @@ MUTANTS = [
            lambda seg: seg.replace('if init < lower', 'if not fix and init < lower', 1)), 'M5', 'bounds check skipped for fixed parameters'),
     Mutant('uniq_skip', 'src/pharmpy/model/parameters.py', edit_node('Parameters.create', compound_containing('if p.name in names', ast.If),
            lambda seg: 'if p.fix:\n                continue\n            ' + seg), 'M5', 'uniqueness skipped for some elements'),
+    Mutant('frozenmapping_ordered_hash', 'src/pharmpy/internals/immutable.py', edit_node('frozenmapping.__hash__', lambda n, seg: isinstance(n, ast.Call) and seg.startswith('hash(frozenset('), lambda seg: 'hash(tuple((k, v) for k, v in self._mapping.items()))', 0), 'M11', 'entries hashed in insertion order (regression of cd551a5)'),
 ]
